@@ -199,6 +199,13 @@ def current_value_of(name, o, rng):
 
 
 # ---------------------------------------------------------------------- requests
+def cur_name_of(st):
+    """Attribute the Current Attribute of a 2.0 ModifyAttribute names: by default the same as the New Attribute."""
+    if st.get('cur_name') is not None:
+        return st['cur_name']
+    return st['new'][0] if st.get('new') is not None else 'Name'
+
+
 def build_item(st):
     """Abstract attribute step -> (Operation, payload)."""
     f = st['form']
@@ -213,8 +220,7 @@ def build_item(st):
             n, v = st['new']
             new = cobjects.NewAttribute(attribute=py_value(n, v))
         if st.get('cur') is not None:
-            n = st['new'][0] if st.get('new') is not None else 'Name'
-            cur = cobjects.CurrentAttribute(attribute=py_value(n, st['cur']))
+            cur = cobjects.CurrentAttribute(attribute=py_value(cur_name_of(st), st['cur']))
         return (OP.MODIFY_ATTRIBUTE, payloads.ModifyAttributeRequestPayload(
             unique_identifier=uid, attribute=attr, current_attribute=cur, new_attribute=new))
     if f == 'del':
@@ -249,7 +255,7 @@ def coq_req(st):
         if st.get('attr') is not None:
             n, idx, v = st['attr']
             attr = '(Some (%s, %s, %s))' % (cp.string(n), cp.option(idx, cp.z), jv_coq(v))
-        cur = 'None' if st.get('cur') is None else '(Some %s)' % jv_coq(st['cur'])
+        cur = 'None' if st.get('cur') is None else coq_tagged([cur_name_of(st), st['cur']])
         return '(RModify (mkMod %s %s %s))' % (attr, cur, coq_tagged(st.get('new')))
     if f == 'del':
         return '(RDelete (mkDel %s %s %s %s))' % (cp.option(st.get('name'), cp.string), cp.option(st.get('idx'), cp.z),
@@ -442,6 +448,8 @@ def expected_after_success(st, ver, pre_obj):
         else:
             n, idx, v = st['attr']
             cur = None
+        if v2 and cur is not None and cur_name_of(st) != n:
+            return 'ModifyAttribute succeeded with a current attribute of another kind (%r) than the new one (%r)' % (cur_name_of(st), n)
         if n not in MULTI:
             if v2 and cur is not None and n in SINGLE and jv_plain(cur) != pre_obj[SINGLE[n]]:
                 return 'ModifyAttribute succeeded although the current value given is not the stored one'
@@ -764,6 +772,16 @@ def odd_history(rng):
     # (a tag that is no attribute cannot be put into New/CurrentAttribute: their setters and the decoder reject it)
     A(form='mod', ver=V2, attr=['Name', 0, ['T', 'q']])               # 1.x fields under 2.0
     A(form='mod', ver=v1, new=['Name', ['T', 'q']], cur=['T', 'a'])   # 2.0 fields under 1.x
+    # Current Attribute and New Attribute of different kinds (values present on the object, so a lookup would succeed)
+    g0, n0, a0 = objs[0]['groups'][0], objs[0]['names'][0], objs[0]['asi'][0]
+    for cn, cv, nn, nv in [('Object Group', ['T', g0], 'Name', ['T', 'q']), ('Name', ['T', n0], 'Object Group', ['T', 'q']),
+                           ('Application Specific Information', ['A', a0[0], a0[1]], 'Name', ['T', 'q']),
+                           ('Name', ['T', n0], 'Application Specific Information', ['A', 'n', 'd']),
+                           ('Sensitive', ['B', False], 'Name', ['T', 'q']), ('Name', ['T', n0], 'Sensitive', ['B', True]),
+                           ('Object Group', ['T', g0], 'State', ['I', 2]), ('State', ['I', 1], 'Object Group', ['T', 'q']),
+                           (UNLISTED, ['T', 'x'], 'Name', ['T', 'q']), ('Name', ['T', n0], UNLISTED, ['T', 'x'])]:
+        A(form='mod', ver=V2, new=[nn, nv], cur=cv, cur_name=cn)
+        A(form='mod', ver=v1, new=[nn, nv], cur=cv, cur_name=cn)          # and under 1.x, where these fields are not read
     for uid, user in [(None, 'alice'), ('999', 'alice'), ('3', 'alice'), ('1', 'bob'), ('1', 'carol')]:
         A(form='mod', ver=v1, attr=['Name', 0, ['T', 'q']], uid=uid, user=user)
         A(form='del', ver=v1, name='Object Group', idx=0, uid=uid, user=user)
@@ -995,7 +1013,11 @@ def random_history(rng, names, n_steps):
             elif form == 'mod':
                 st['new'] = [n2, val]
                 q = rng.random()
-                if q < 0.7 and o is not None:
+                if q < 0.06 and o is not None:
+                    other = rng.choice([x for x in CHANGEABLE if x != name])
+                    st['cur_name'] = other
+                    st['cur'] = current_value_of(other, o, rng) or value_for(other, rng)
+                elif q < 0.7 and o is not None:
                     st['cur'] = current_value_of(name, o, rng)
                 elif q < 0.85:
                     st['cur'] = value_for(name, rng)
@@ -1293,6 +1315,24 @@ def ph_setup(eng):
 _TWIN = {}
 
 
+MIDDLES = ['get', 'get_attributes', 'modify', 'activate']
+
+
+def middle_item(kind, ver):
+    """A successful item that merely NAMES another object (the bystander, object 2) by an explicit identifier."""
+    if kind == 'get':
+        return kdrv.get('2')
+    if kind == 'get_attributes':
+        return kdrv.get_attributes('2')
+    if kind == 'activate':
+        return kdrv.activate('2')
+    if kind == 'modify':
+        st = ({'form': 'mod', 'new': ['Object Group', ['T', 'mid']], 'cur': ['T', 'h']} if tuple(ver) >= V2
+              else {'form': 'mod', 'attr': ['Object Group', 1, ['T', 'mid']]})
+        return build_item(dict(st, uid='2', k='attr', user='alice', ver=list(ver)))
+    raise ValueError(kind)
+
+
 def run_placeholder_batch(ctx, w, workdir):
     """w = {'creator', 'otype', 'step' (uid None), 'version'}: ONE request [creating operation; attribute operation without an
     identifier].  A twin engine receives the creating operation alone and gives the state the new object has before the
@@ -1301,7 +1341,8 @@ def run_placeholder_batch(ctx, w, workdir):
     ver = tuple(w['version'])
     st = dict(w['step'], uid=None, k='attr', user='alice', ver=list(ver))
     obs = {}
-    tkey = (w['creator'], w.get('otype', 'SYMMETRIC_KEY'), ver)
+    mid = w.get('middle')
+    tkey = (w['creator'], w.get('otype', 'SYMMETRIC_KEY'), ver, mid)
     if tkey in _TWIN:               # the twin depends only on the creating operation, its object type and the version
         obs['twin'] = _TWIN[tkey]
     for which in ('twin', 'main'):
@@ -1310,11 +1351,14 @@ def run_placeholder_batch(ctx, w, workdir):
         eng = fresh_engine(workdir)
         try:
             ph_setup(eng)
-            items = [creator_item(w['creator'], w.get('otype', 'SYMMETRIC_KEY'))] + ([build_item(st)] if which == 'main' else [])
+            items = ([creator_item(w['creator'], w.get('otype', 'SYMMETRIC_KEY'))] + ([middle_item(mid, ver)] if mid else [])
+                     + ([build_item(st)] if which == 'main' else []))
             r = eng.request(items, version=ver, user='alice')
             if r['error'] is not None or not r['items'] or not kdrv.ok(r['items'][0]):
                 raise RuntimeError('creating operation %s failed under %r: %r' % (
                     w['creator'], ver, r['error'] or (r['items'][0]['reason'], r['items'][0]['message'])))
+            if mid and (len(r['items']) < 2 or not kdrv.ok(r['items'][1])):
+                raise RuntimeError('middle item %s failed under %r: %r' % (mid, ver, r['items'][1:2] and (r['items'][1]['reason'], r['items'][1]['message'])))
             target = kdrv.first_uid(r['items'][0])
             res = [('SUCCESS' if kdrv.ok(it) else it['reason']) for it in r['items']]
             d1 = eng.dump()
@@ -1327,9 +1371,9 @@ def run_placeholder_batch(ctx, w, workdir):
             eng.close()
     _TWIN[tkey] = obs['twin']
     t, m = obs['twin'], obs['main']
-    if len(m['res']) != 2:
+    if len(m['res']) != (3 if mid else 2):
         raise RuntimeError('placeholder batch answered %d items' % len(m['res']))
-    okk = m['res'][1] == 'SUCCESS'
+    okk = m['res'][-1] == 'SUCCESS'
     wit = dict(w, results=m['res'], placeholder_object=m['target'], without_attribute_item=t['after'],
                after_batch=m['after'], after_reload=m['reload'])
     want = [dict(o) for o in t['after']]
@@ -1351,7 +1395,7 @@ def run_placeholder_batch(ctx, w, workdir):
                               'a successful placeholder-addressed call did not change exactly the addressed instance (%s)' % phase)
             else:
                 ctx.violation(sig_of(st, ver, 'failure-changed-store'), dict(wit, expected_vs_observed=diff),
-                              'an unsuccessful placeholder-addressed call (%s) changed the store (%s)' % (m['res'][1], phase))
+                              'an unsuccessful placeholder-addressed call (%s) changed the store (%s)' % (m['res'][-1], phase))
             break
     return m['res']
 
@@ -1364,11 +1408,20 @@ def placeholder_batch_oracle(ctx, workdir):
         for j, s0 in enumerate(placeholder_steps()):
             ver = V2 if s0['v'] == 2 else tuple(s0.get('ver', V1[(j + ci + ctx.seed) % 5]))
             step = {k: v for k, v in s0.items() if k not in ('v', 'ver')}
-            for otype in ([types[(j + ctx.seed) % 7]] if (quick or creator != 'register') else types):
-                res = run_placeholder_batch(ctx, {'creator': creator, 'otype': otype, 'step': step, 'version': list(ver)}, workdir)
-                n += 1
-                ctx.count('placeholder.%s.%s' % (creator, 'SUCCESS' if res[1] == 'SUCCESS' else 'failed'))
-                ctx.case_seen(('placeholder', creator, otype if creator == 'register' else '-', json.dumps(s0, sort_keys=True), tuple(res)), nontrivial=True)
+            k7 = j % 7                       # position inside the form's menu: 0-3 change something, 4-6 are refused
+            if quick:
+                # every creator x protocol form meets every kind of middle item in front of a CHANGING step
+                mids = [MIDDLES[(k7 + ci + ctx.seed) % 4]] if k7 < 4 else ([None] if k7 < 6 else [MIDDLES[(ci + ctx.seed) % 4]])
+                if k7 == 0:
+                    mids.append(None)
+            else:
+                mids = [None] + MIDDLES
+            for mid in mids:
+                for otype in ([types[(j + ctx.seed) % 7]] if (quick or creator != 'register') else types):
+                    res = run_placeholder_batch(ctx, {'creator': creator, 'otype': otype, 'step': step, 'version': list(ver), 'middle': mid}, workdir)
+                    n += 1
+                    ctx.count('placeholder.%s.%s.%s' % (creator, mid or 'direct', 'SUCCESS' if res[-1] == 'SUCCESS' else 'failed'))
+                    ctx.case_seen(('placeholder', creator, mid, otype if creator == 'register' else '-', json.dumps(s0, sort_keys=True), tuple(res)), nontrivial=True)
     return n
 
 
@@ -1563,7 +1616,7 @@ def replay(ctx, data):
             print(' -', v['what'], json.dumps(v['signature'], sort_keys=True))
         return 1 if ctx.violations else 0
     if hist is None and 'creator' in w:
-        res = run_placeholder_batch(ctx, {k: w[k] for k in ('creator', 'otype', 'step', 'version') if k in w}, ctx.work)
+        res = run_placeholder_batch(ctx, {k: w[k] for k in ('creator', 'otype', 'step', 'version', 'middle') if k in w}, ctx.work)
         print('batch items:', res)
         print('violations reproduced:', len(ctx.violations))
         for v in ctx.violations[:5]:
